@@ -10,14 +10,18 @@ for d in sorted(glob.glob(f'{V}/seeded/*/meta.json')):
     tot += 1
     r = m['check_result']
     det += 1 if r['detected'] else 0
+    cross = globals().get('cross', 0) + (1 if (not r['detected'] and r.get('detected_by_other_property')) else 0)
+    globals()['cross'] = cross
     what = re.sub(r'^(Patch|patch|K =)\s*\d\s*[-—:–]*\s*', '', m['breaks']).replace('|', '/')
     what = re.sub(r'\(patch\d\.diff, demo\d\.rs\)', '', what).strip()[:110]
     sig = r['first_signature'].split(' :: ')[0].replace('violation sig=', '').replace('|', '¦')[:70]
     cases = r['cases_to_detect'].replace('cases=', '')
     hist = ' †' if 'history' in m else ''
-    rows.append(f"| {sid}{hist} | {what} | {'caught' if r['detected'] else 'MISSED'} | {cases} | `{sig}` |")
+    other = r.get('detected_by_other_property')
+    verdict = 'caught' if r['detected'] else (f'missed; caught by {other}' if other else 'not detected (see history)')
+    rows.append(f"| {sid}{hist} | {what} | {verdict} | {cases} | `{sig}` |")
 table = ("| seed | change (author's title) | quick tier | cases run when it fired | first signature |\n|---|---|---|---|---|\n" + "\n".join(rows) +
-         f"\n\n{det} of {tot} seeded changes are caught by the quick tier of the property they were written against. † = missed by the first version of the check; `seeded/<id>/meta.json` (`history`) says what was strengthened.\n")
+         f"\n\n{det} of {tot} seeded changes are caught by the quick tier of the property they were written against, {globals().get('cross', 0)} more by the quick tier of a neighbouring property, {tot - det - globals().get('cross', 0)} are not detected (reason in `history`). † = missed by the first version of the check; `seeded/<id>/meta.json` (`history`) says what was strengthened.\n")
 p = f'{V}/DESIGN.md'
 s = open(p).read()
 a = s.index('<!-- SEED-TABLE-BEGIN -->') + len('<!-- SEED-TABLE-BEGIN -->')
